@@ -511,3 +511,152 @@ Example extremes_in_range :
                                        && negb (int_in_range sg bits (int_max sg bits + 1))
                      | _ => false end) int_types = true.
 Proof. vm_compute. reflexivity. Qed.
+
+
+(* ---------- f32 / f64: correct rounding ---------- *)
+
+Ltac Zify.zify_post_hook ::= idtac.
+Local Open Scope Z_scope.
+
+Lemma rne_spec A B :
+  0 <= A -> 0 < B ->
+  2 * Z.abs (A - rne A B * B) <= B /\
+  (2 * Z.abs (A - rne A B * B) = B -> Z.even (rne A B) = true).
+Proof.
+  intros HA HB. unfold rne.
+  pose proof (Z.div_mod A B ltac:(lia)) as Hdm.
+  pose proof (Z.mod_pos_bound A B HB) as Hr.
+  set (m0 := A / B) in *. set (r := A mod B) in *.
+  assert (HAr : A - m0 * B = r) by lia.
+  destruct (2 * r <? B) eqn:E1.
+  - rewrite HAr. split; lia.
+  - destruct (2 * r =? B) eqn:E2.
+    + destruct (Z.even m0) eqn:Ev.
+      * rewrite HAr. split; [lia|auto].
+      * replace (A - (m0 + 1) * B) with (r - B) by lia. split; [lia|].
+        intros _. rewrite Z.even_add, Ev. reflexivity.
+    + replace (A - (m0 + 1) * B) with (r - B) by lia. split; lia.
+Qed.
+
+Lemma flog2_ratio_spec num den :
+  0 < num -> 0 < den ->
+  let f := flog2_ratio num den in
+  (0 <= f -> den * 2 ^ f <= num < den * 2 ^ (f + 1)) /\
+  (f < 0 -> den <= num * 2 ^ (- f) /\ num * 2 ^ (- f) < 2 * den).
+Proof.
+  intros Hn Hd. unfold flog2_ratio.
+  pose proof (Z.log2_spec num Hn) as [Ln1 Ln2].
+  pose proof (Z.log2_spec den Hd) as [Ld1 Ld2].
+  pose proof (Z.log2_nonneg num). pose proof (Z.log2_nonneg den).
+  set (a := Z.log2 num) in *. set (b := Z.log2 den) in *.
+  rewrite Z.pow_succ_r in Ln2, Ld2 by lia.
+  destruct (0 <=? a - b) eqn:El.
+  - assert (Hab : a = b + (a - b)) by lia.
+    assert (Hp : 2 ^ a = 2 ^ b * 2 ^ (a - b)) by (rewrite <- Z.pow_add_r by lia; f_equal; lia).
+    assert (Hpos : 0 < 2 ^ (a - b)) by (apply Z.pow_pos_nonneg; lia).
+    destruct (den * 2 ^ (a - b) <=? num) eqn:Ege; cbn zeta.
+    + split; [|lia]. intros _. split; [lia|].
+      rewrite Z.pow_add_r by lia. change (2 ^ 1) with 2. nia.
+    + destruct (Z.eq_dec (a - b) 0) as [E0|E0].
+      * (* l = 0, num < den: f = -1 *)
+        split; [lia|]. intros _. replace (- (a - b - 1)) with 1 by lia. change (2 ^ 1) with 2.
+        rewrite E0 in *. change (2 ^ 0) with 1 in *. nia.
+      * split; [|lia]. intros _.
+        assert (Hs : 2 ^ (a - b) = 2 * 2 ^ (a - b - 1)).
+        { rewrite <- Z.pow_succ_r by lia. f_equal. lia. }
+        assert (0 < 2 ^ (a - b - 1)) by (apply Z.pow_pos_nonneg; lia).
+        replace (a - b - 1 + 1) with (a - b) by lia. split; [nia|lia].
+  - (* l < 0 *)
+    assert (Hp : 2 ^ b = 2 ^ a * 2 ^ (- (a - b))) by (rewrite <- Z.pow_add_r by lia; f_equal; lia).
+    assert (Hpos : 0 < 2 ^ (- (a - b))) by (apply Z.pow_pos_nonneg; lia).
+    destruct (den <=? num * 2 ^ (- (a - b))) eqn:Ege; cbn zeta.
+    + split; [lia|]. intros _. split; [lia|nia].
+    + split; [lia|]. intros _. replace (- (a - b - 1)) with (Z.succ (- (a - b))) by lia.
+      rewrite Z.pow_succ_r by lia. split; nia.
+Qed.
+
+Lemma rne_range A B : 0 < B -> A / B <= rne A B <= A / B + 1.
+Proof.
+  intros HB. unfold rne. destruct (2 * (A mod B) <? B); [lia|].
+  destruct (2 * (A mod B) =? B); [destruct (Z.even (A / B)); lia|lia].
+Qed.
+
+Definition scaled (fm : fmt) (num den : Z) : Z * Z * Z :=
+  let k := Z.max (f_emin fm) (flog2_ratio num den - (f_p fm - 1)) in
+  if 0 <=? k then (k, num, den * 2 ^ k) else (k, num * 2 ^ (- k), den).
+
+Lemma div_bounds A B L U : 0 < B -> B * L <= A -> A < B * U -> L <= A / B < U.
+Proof.
+  intros HB H1 H2. split.
+  - apply Z.div_le_lower_bound; lia.
+  - apply Z.div_lt_upper_bound; lia.
+Qed.
+
+Theorem round_ratio_correct fm num den :
+  0 < num -> 0 < den -> 1 <= f_p fm ->
+  let '(k, A, B) := scaled fm num den in
+  let m := rne A B in
+  0 <= A /\ 0 < B /\
+  (* A / B is exactly (num / den) / 2^k *)
+  (if 0 <=? k then A = num /\ B = den * 2 ^ k else A = num * 2 ^ (- k) /\ B = den) /\
+  (* m is the integer nearest to A / B, ties to even *)
+  2 * Z.abs (A - m * B) <= B /\ (2 * Z.abs (A - m * B) = B -> Z.even m = true) /\
+  (* and k is the exponent of the binade of num / den, or the least one *)
+  (k = f_emin fm \/ 2 ^ (f_p fm - 1) <= m <= 2 ^ f_p fm).
+Proof.
+  intros Hn Hd Hp. unfold scaled.
+  pose proof (flog2_ratio_spec num den Hn Hd) as Hf. cbn zeta in Hf.
+  set (f := flog2_ratio num den) in *. set (p := f_p fm) in *.
+  set (k := Z.max (f_emin fm) (f - (p - 1))).
+  destruct (0 <=? k) eqn:Ek; cbv beta iota zeta; rewrite Ek.
+  - assert (Hk : 0 <= k) by lia.
+    assert (HB : 0 < den * 2 ^ k) by (apply Z.mul_pos_pos; [lia|apply Z.pow_pos_nonneg; lia]).
+    destruct (rne_spec num (den * 2 ^ k) ltac:(lia) HB) as [R1 R2].
+    repeat split; try lia; try exact R1; try exact R2.
+    destruct (Z.eq_dec k (f_emin fm)) as [E|E]; [left; exact E|right].
+    assert (Hkf : k = f - (p - 1)) by lia.
+    destruct Hf as [Hf _]. specialize (Hf ltac:(lia)).
+    assert (H2f : 2 ^ f = 2 ^ k * 2 ^ (p - 1)) by (rewrite <- Z.pow_add_r by lia; f_equal; lia).
+    assert (H2f1 : 2 ^ (f + 1) = 2 ^ k * 2 ^ p) by (rewrite <- Z.pow_add_r by lia; f_equal; lia).
+    pose proof (div_bounds num (den * 2 ^ k) (2 ^ (p - 1)) (2 ^ p) HB ltac:(nia) ltac:(nia)) as Hb.
+    pose proof (rne_range num (den * 2 ^ k) HB). lia.
+  - assert (Hk : k < 0) by lia.
+    assert (Hpk : 0 < 2 ^ (- k)) by (apply Z.pow_pos_nonneg; lia).
+    assert (HA : 0 <= num * 2 ^ (- k)) by nia.
+    destruct (rne_spec (num * 2 ^ (- k)) den HA Hd) as [R1 R2].
+    repeat split; try lia; try exact R1; try exact R2.
+    destruct (Z.eq_dec k (f_emin fm)) as [E|E]; [left; exact E|right].
+    assert (Hkf : k = f - (p - 1)) by lia.
+    assert (Hb : 2 ^ (p - 1) <= num * 2 ^ (- k) / den < 2 ^ p).
+    { apply div_bounds; [exact Hd| |].
+      - destruct (Z_lt_le_dec f 0) as [Hneg|Hpos].
+        + destruct Hf as [_ Hf]. specialize (Hf Hneg).
+          assert (E2 : 2 ^ (- k) = 2 ^ (- f) * 2 ^ (p - 1)) by (rewrite <- Z.pow_add_r by lia; f_equal; lia).
+          assert (0 < 2 ^ (p - 1)) by (apply Z.pow_pos_nonneg; lia). nia.
+        + destruct Hf as [Hf _]. specialize (Hf Hpos).
+          assert (E2 : 2 ^ (p - 1) = 2 ^ f * 2 ^ (- k)) by (rewrite <- Z.pow_add_r by lia; f_equal; lia).
+          nia.
+      - destruct (Z_lt_le_dec f 0) as [Hneg|Hpos].
+        + destruct Hf as [_ Hf]. specialize (Hf Hneg).
+          assert (E2 : 2 ^ (- k) = 2 ^ (- f) * 2 ^ (p - 1)) by (rewrite <- Z.pow_add_r by lia; f_equal; lia).
+          assert (E3 : 2 ^ p = 2 * 2 ^ (p - 1)) by (rewrite <- Z.pow_succ_r by lia; f_equal; lia).
+          assert (0 < 2 ^ (p - 1)) by (apply Z.pow_pos_nonneg; lia). nia.
+        + destruct Hf as [Hf _]. specialize (Hf Hpos).
+          assert (E2 : 2 ^ p = 2 ^ (f + 1) * 2 ^ (- k)) by (rewrite <- Z.pow_add_r by lia; f_equal; lia).
+          nia. }
+    pose proof (rne_range (num * 2 ^ (- k)) den Hd). lia.
+Qed.
+
+
+(* [round_ratio] is: scale, round to nearest-even, pack exponent and
+   significand into one sum, saturate at infinity *)
+Lemma round_ratio_scaled fm num den :
+  round_ratio fm num den =
+  let '(k, A, B) := scaled fm num den in
+  Z.min ((k - f_emin fm) * 2 ^ (f_p fm - 1) + rne A B) ((2 ^ f_w fm - 1) * 2 ^ (f_p fm - 1)).
+Proof.
+  unfold round_ratio, scaled.
+  destruct (0 <=? Z.max (f_emin fm) (flog2_ratio num den - (f_p fm - 1))); reflexivity.
+Qed.
+
+Local Close Scope Z_scope.
